@@ -195,6 +195,9 @@ type Exec struct {
 	work     []*State
 
 	curResults []resTerm // handles on the values being returned (set while postconditions are checked)
+	entryRegions  map[*Term]bool // initial symbols of heap regions (state at function entry)
+	readEntryOnly bool
+	wfNA          *Term
 	allocFacts map[*Term]bool // "this stored reference is allocated" facts (kept under quantifier binders)
 	obls     map[string]*Obligation
 	oblList  []*Obligation
@@ -1024,7 +1027,9 @@ func (ex *Exec) jump(fr *Frame, to *ssa.BasicBlock) {
 				if spec := ex.loopSpecFor(fr, li); spec != nil {
 					for i, a := range spec.After {
 						lname := fmt.Sprintf("%s.loop%d", relName(fr.fn), li.ordinal)
-						ex.oblige("loop-exit", fmt.Sprintf("%s:%03d", lname, i), li.pos, "holds when the loop exits: "+a.Text, ex.evalBool(a.E, ex.envFor(fr, nil)))
+						env := ex.envFor(fr, nil)
+						env.loopOld = fr.loopOld[li.head.Index] // loopentry(e) in an exit clause: the state in which this loop was entered
+						ex.oblige("loop-exit", fmt.Sprintf("%s:%03d", lname, i), li.pos, "holds when the loop exits: "+a.Text, ex.evalBool(a.E, env))
 					}
 				}
 			}
